@@ -570,7 +570,8 @@ def run_check(pid, tier, plan, seed=0, only=None, keep=False):
         if plan.get('level') == 'translation_validation':
             cov['programs'] = discharged; cov['disagreements_checked'] = len(violations) + len([1 for n, w in inconclusive if 'counterexample' in w])
         os.makedirs(os.path.join(OUT, 'evidence'), exist_ok=True)
-        with open(os.path.join(OUT, 'evidence', pid + '.json'), 'w') as f:
+        # a run restricted with --only is a development aid: it must not replace the evidence of the full check
+        with open(os.path.join(OUT, 'evidence', pid + ('.only.json' if only else '.json')), 'w') as f:
             json.dump(ev, f, indent=1)
         for note, path in pre_violations:
             log('VIOLATION property=%s replay=%s' % (pid, path)); log('   ' + note[:400])
